@@ -2,10 +2,11 @@ package rate
 
 import (
 	"fmt"
-	"regexp"
 	"strconv"
 	"strings"
 	"time"
+	"unicode"
+	"unicode/utf8"
 )
 
 func ParseRate(rateArg string) (int, time.Duration, error) {
@@ -25,7 +26,7 @@ func ParseRate(rateArg string) (int, time.Duration, error) {
 		if unitArg == "" {
 			return rate, unit, fmt.Errorf("unable to parse rate %s: missing unit", rateArg)
 		}
-		if !isNumeric(unitArg[0:1]) {
+		if startsWithLetter(unitArg) {
 			unitArg = "1" + unitArg
 		}
 		unit, err = time.ParseDuration(unitArg)
@@ -47,7 +48,9 @@ func ParseRate(rateArg string) (int, time.Duration, error) {
 	return rate, unit, nil
 }
 
-func isNumeric(value string) bool {
-	re := regexp.MustCompile("^[0-9]+$")
-	return re.MatchString(value)
+// startsWithLetter reports whether value is a bare unit such as "s", "ms" or "µs",
+// as opposed to a duration literal like "10s", ".5s" or "-1s".
+func startsWithLetter(value string) bool {
+	first, _ := utf8.DecodeRuneInString(value)
+	return unicode.IsLetter(first)
 }
